@@ -415,4 +415,9 @@ package agent
 // every id an operator names in a command is a 32-bit value in hex: the parse must hold all of them
 //@   guard-call idwidth: "ParseInt" arg(1) == 16 ==> arg(2) == 64
 //@   guard-call taskid: "ParseInt#1" arg(0) == job.TaskID && arg(1) == 16 && arg(2) == 64 && job.TaskID == unboxed(Optional["TaskID"], string)
+// C15: operator commands leave the proxy table consistent: while the list of SOCKS servers is being walked
+// it is not shortened under the walk (the one removal in "socks kill" leaves the loop at once), so no
+// index of the walk ever points past the list
+//@   loop "for i := range a.SocksSvr" #2
+//@     invariant same: sameslice(a.SocksSvr, old(a.SocksSvr))
 //@   guard-store rid: "+Job\.RequestID$" storedvalue() == lastresult(Uint32) || (inscope("RequestID") && storedvalue() == uint32(RequestID) && (id32(job.TaskID) ==> RequestID == uf_hexval(job.TaskID)))
